@@ -63,10 +63,13 @@ def c02(tier):
     x2 = F.exhaustive_two()
     defs += x2 if tier != "quick" else random.Random(s).sample(x2, 150)
     run.add_jobs(jobs_for(defs, {"pause": 1, "cancel": 1, "max_nodes": sizes(tier, 1500, 5000)}, s))
+    # resume requested while the workflow is still pausing (actions in flight)
+    run.add_jobs(jobs_for(F.curated() + F.curated_items()[:6], {"pause": 1, "resume_early": True, "cancel": 1,
+                                                                "max_nodes": sizes(tier, 1500, 6000)}, s))
     e2 = F.with_e2(F.curated()[:10] + F.curated_items()[:11])
     run.add_jobs(jobs_for(e2, {"pause": 1, "cancel": 1, "sample": sizes(tier, 3, 5), "max_nodes": sizes(tier, 1200, 6000)}, s))
     return run.finish("model_checking",
-                      "definitions x outcomes x report orders x every placement of one pause(+resume) and one cancel; "
+                      "definitions x outcomes x report orders x every placement of one pause(+resume, also while still pausing) and one cancel; "
                       "E2 alphabet (actions that pause/cancel themselves, go pending, time out) on curated shapes incl. with-items",
                       ASSUME_COMMON)
 
@@ -350,6 +353,11 @@ def c15(tier):
                           s, ("yaql", "jinja"), tok="visit"))
     run.add_jobs(jobs_for(F.curated() + F.curated_items()[:8], {"rerun": 1, "rerun_tasks": True, "sample": 3,
                                                                 "max_nodes": sizes(tier, 800, 4000)}, s))
+    # definitions inspection accepts although an expression fails at run time (wrong type, unknown function):
+    # the failure must be contained whatever the workflow is doing (pausing, canceling, ...)
+    rt = [d for d in F.fault_family(("type", "func")) if F.accepted(d)]
+    run.extra["accepted_runtime_faulty"] = len(rt)
+    run.add_jobs(jobs_for(rt, {"pause": 1, "cancel": 1, "sample": sizes(tier, 4, 6), "max_nodes": sizes(tier, 500, 3000)}, s))
     # completeness half: single-fault mutants enumerated by TLC (spec/Inspect.tla)
     hosts = F.curated() + F.curated_items()[:4] + F.curated_retry()[:4] + F.graph_family(2700 + s, sizes(tier, 10, 120), nmax=4)
     faults, res = I.enumerate_faults(hosts, run.tmp)
@@ -421,6 +429,12 @@ def c19(tier):
         run.machinery.append("seed run: " + str(e)[:1500])
     run.extra["hash_seeds"] = list(seeds)
     run.add_groups(gs)
+    # purity of the query on the data-path host (nested values published over published values)
+    from . import datapath as DP
+    paths, res = DP.enumerate_paths(run.tmp)
+    if res["rc"] != 0 or not paths:
+        run.machinery.append("DataPath tlc rc=%s\n%s" % (res["rc"], res["out"][-2000:]))
+    run.add_groups(DP.datapath_groups(paths, DP.values(s, sizes(tier, 40, 400)), seed=s, per_value=2))
     return run.finish("exploration",
                       "C19_idem (same answer, same persisted form) at every query of sampled histories over all families; "
                       "sampled complete histories (incl. multi-request reruns, faulty definitions) replayed in one process "
@@ -530,6 +544,19 @@ def replay(prop, path):
     from . import tlc
     with open(path) as f:
         rp = json.load(f)
+    if rp.get("env", {}).get("source") == "pytest":
+        # a trace recorded from one of the repository's tests: record that test again and validate it
+        run = P.Run(prop, "quick", [prop + "_"])
+        run.add_test_traces((rp["env"]["test"],))
+        viol, _ = run.classify()
+        run.close()
+        for v in viol:
+            print("clause %s false at step %d of a conductor driven by %s" % (v["clause"], v["node"], rp["env"]["test"]))
+        if viol:
+            print("VIOLATION property=%s replay=%s" % (prop, path))
+            return 1
+        print("no %s clause fails on this replay" % prop)
+        return 0
     r = X.run_schedule(rp["def"], rp["schedule"], lang=rp.get("lang", "yaql"), tok=rp.get("tok", "task"),
                        lazy=bool(rp.get("env", {}).get("lazy")))
     tree = X.Tree(rp["def"])
